@@ -187,7 +187,10 @@ func (m *monitor) judgeSignatures(n *simNode) {
 					lockR, lockB = o.r, o.block
 				}
 			}
-			if lockR >= 0 && rec.block != lockB {
+			// "a block" is identified by its hash: the same block under another part-set header
+			// (a +2/3 prevote quorum can name one the node does not hold parts for; enterPrecommit
+			// locks the block it holds and signs the quorum's id) is not "something else"
+			if lockR >= 0 && hashOf(rec.block) != hashOf(lockB) {
 				justified := false
 				for k := range m.recv[n.idx] {
 					var kh int64
@@ -197,7 +200,7 @@ func (m *monitor) judgeSignatures(n *simNode) {
 						continue
 					}
 					kb = k[len(fmt.Sprintf("%d/%d/", kh, kr)):]
-					if kh == rec.h && kr > lockR && normKey(kb) != lockB && m.polkaFor(n.idx, kh, kr, kb) {
+					if kh == rec.h && kr > lockR && hashOf(normKey(kb)) != hashOf(lockB) && m.polkaFor(n.idx, kh, kr, kb) {
 						justified = true
 					}
 				}
@@ -238,6 +241,14 @@ func (m *monitor) judgeSignatures(n *simNode) {
 const nilBlock = "/0/"
 
 func recKey(r signRec) string { return denorm(r.block) }
+
+// hashOf returns the block-hash part of a rendered block id ("" for nil).
+func hashOf(b string) string {
+	if i := strings.IndexByte(b, '/'); i >= 0 {
+		return b[:i]
+	}
+	return b
+}
 
 // sign records render a nil block id as "/0/"; the delivery tally uses "nil".
 func denorm(b string) string {
